@@ -72,6 +72,29 @@ class FakeMap(object):
         self.dtype, self.size = dtype, size
 
 
+class SizedFile(object):
+    """what open(path) gives the reader when it only asks for the size"""
+
+    def __init__(self, size):
+        self.size = size
+        self.pos = 0
+
+    def seek(self, off, whence=0):
+        self.pos = self.size + off if whence == 2 else off
+
+    def tell(self):
+        return self.pos
+
+    def close(self):
+        pass
+
+    def __enter__(self):
+        return self
+
+    def __exit__(self, *a):
+        return False
+
+
 def header_maps(holder, lay):
     """what the reader's header memmaps hold for a file of the reference
     layout: real numpy structured arrays (real dtypes of the reader) filled
@@ -88,6 +111,8 @@ def header_maps(holder, lay):
     gh = np.zeros(1, g('grid_hdr_fmt'))
     gh['nx'], gh['ny'], gh['nz'] = int(lay.nx), int(lay.ny), lay.nz
     gh['SPAD'] = gh['EPAD'] = gh.dtype.itemsize - 8
+    me._uamiv__rffile = 'symbolic-length-file'
+    me._uamiv__mode = 'r'
     me._uamiv__emiss_hdr = eh
     me._uamiv__grid_hdr = gh
     me._uamiv__cell_hdr = FakeMap(g('cell_hdr_fmt'), 1)
@@ -122,12 +147,39 @@ class CutUamiv(Obligation):
 
     def kernel(self):
         if self._kernel is None:
+            import ast
             sp = loader.TwinSpace()
             mm = sp.twin('PseudoNetCDF.camxfiles.uamiv.Memmap')
+
+            def dim(key):
+                def m(c):
+                    if isinstance(c.func, ast.Attribute) and \
+                            c.func.attr == 'createDimension' and \
+                            len(c.args) == 2 and \
+                            isinstance(c.args[0], ast.Constant) and \
+                            c.args[0].value == key:
+                        return c.args[1]
+                return m
+
+            def data_offset(c):
+                # the last memmap(...) call maps the time-dependent part:
+                # its offset is where the data start
+                f = c.func
+                nm = f.id if isinstance(f, ast.Name) else getattr(
+                    f, 'attr', None)
+                kw = dict((k.arg, k.value) for k in c.keywords)
+                if nm == 'memmap' and 'offset' in kw:
+                    return kw['offset']        # the last such call wins
+            # observable results instead of local names: the slice follows
+            # the data flow into these calls, whatever the locals are called
             run, info = loader.slice_kernel(
                 'PseudoNetCDF.camxfiles.uamiv.Memmap',
-                'uamiv._uamiv__readheader'.replace('_uamiv__', '__'), NAMES,
-                space=sp, provided=['self', 'size'])
+                'uamiv._uamiv__readheader'.replace('_uamiv__', '__'), [],
+                space=sp, provided=['self', 'open'],
+                outputs={'out_ntimes': dim('TSTEP'), 'out_nz': dim('LAY'),
+                         'out_nx': dim('COL'), 'out_ny': dim('ROW'),
+                         'out_nspec': dim('VAR'),
+                         'out_offset': data_offset})
             holder = type('S', (), {})()
             mm.uamiv._make_header_fmt(holder, '>')
             self._kernel = (run, info, holder, sp)
@@ -154,7 +206,7 @@ class CutUamiv(Obligation):
         ctx.assume(symx._b(L <= lay.length - 1), check=False)
         me = header_maps(holder, lay)
         env = dict(sp.twin('PseudoNetCDF.camxfiles.uamiv.Memmap').__dict__)
-        env.update({'self': me, 'size': L})
+        env.update({'self': me, 'open': lambda *a, **k: SizedFile(L)})
         raised = None
         try:
             out = run(env)
@@ -167,7 +219,7 @@ class CutUamiv(Obligation):
             # raising is always acceptable for a proper prefix
             h.claim('raises-on-partial', z3.BoolVal(True))
             return
-        off, nt, dbs = out['offset'], out['ntimes'], out['data_block_size']
+        off, nt = out['out_offset'], out['out_ntimes']
         if bool(nt == 0):
             # np.memmap contract: mapping zero bytes raises ValueError
             h.observe('raised', True)
@@ -175,7 +227,6 @@ class CutUamiv(Obligation):
             return
         h.observe('ntimes', nt)
         h.claim('header-offset-matches-layout', symx._b(off == lay.H))
-        h.claim('block-size-matches-layout', symx._b(dbs * 4 == lay.B))
         h.claim('whole-steps-only', symx._b(lay.H + nt * lay.B == L))
         h.claim('steps-fit', z3.And(symx._b(nt >= 0), symx._b(nt < T)))
 
